@@ -77,6 +77,29 @@ class StoreLog:
         self.swapouts = {}      # url -> set(objlen) currently on disk
         self.counts = {}
         self.released_urls = {}  # url -> count of RELEASE of a disk file that belonged to url
+        self.key_of = {}         # url -> store key (hex) as logged
+        self.last_swapout = {}   # url -> sequence number of its last SWAPOUT line
+        self.swapout_seq = 0
+        self.rock_anchors = None  # number of anchors of the rock map (set by the instance runner)
+
+    def rock_anchor(self, url):
+        """index of the rock map anchor of this URL's key: Ipc::StoreMap::nameByKey() = (k[0] + k[1]) % entryLimit"""
+        key = self.key_of.get(url)
+        if not key or not self.rock_anchors:
+            return None
+        b = bytes.fromhex(key)
+        return ((int.from_bytes(b[:8], "little") + int.from_bytes(b[8:16], "little")) & 0xFFFFFFFFFFFFFFFF) % self.rock_anchors
+
+    def evicted_by_anchor_collision(self, url):
+        """rock keeps ONE entry per anchor: a later swapout of another key with the same anchor silently replaces this one
+        (no store.log line is written for that); returns the other URL or None"""
+        a0 = self.rock_anchor(url)
+        if a0 is None:
+            return None
+        for other, seq in self.last_swapout.items():
+            if other != url and seq > self.last_swapout.get(url, 0) and self.rock_anchor(other) == a0:
+                return other
+        return None
 
     def poll(self):
         try:
@@ -107,6 +130,9 @@ class StoreLog:
                     continue
                 self.ondisk[k] = (url, n)
                 self.swapouts.setdefault(url, set()).add(n)
+                self.key_of[url] = key
+                self.swapout_seq += 1
+                self.last_swapout[url] = self.swapout_seq
             elif tag == "RELEASE" and filen != "FFFFFFFF":
                 old = self.ondisk.pop(k, None)
                 if old:
@@ -257,6 +283,13 @@ def run(a, res):
         res.count("judged")
         res.count("judged:" + inst)
         feat = (inst, ri, shape, v["status"], v["framing"], min(v["len"], 140000) // 8192)
+        if contacted and inst == "rock":
+            thief = slog.evicted_by_anchor_collision(url)
+            if thief:
+                # evicted: the property excludes evicted entries. (rock's map is a hash without chaining)
+                res.count("rock_entries_replaced_by_a_colliding_key")
+                res.grey("rock-anchor-collision")
+                return
         if contacted:
             with vlock:
                 prior = [versions[x]["len"] for k, x in u["events"] if k == "version" and x != rid and versions[x]["t"] < v["t"]]
@@ -325,6 +358,9 @@ def run(a, res):
         sq = Squid(a.work, conf=COMMON, cache_dirs=cds)
         wit = {"seed": seed, "case": cases[0]["n"]}
         slog = StoreLog(sq.work + "/store.log")
+        if name == "rock":
+            slot = int(cds[0].split("slot-size=")[1])
+            slog.rock_anchors = (64 * 1024 * 1024 - 16384) // slot       # Rock::SwapDir::entryLimitActual() for a 64 MB cache_dir
         for c in cases:
             table[path_of(c)] = {"case": c, "nver": 0, "lens": set(), "events": []}
         try:
@@ -361,6 +397,12 @@ def run(a, res):
         finally:
             sq.stop()
         health_events(sq, res, judge=True, witness=wit)
+        if name == "rock":
+            seen = {}
+            for url_ in slog.key_of:
+                seen.setdefault(slog.rock_anchor(url_), []).append(url_)
+            res.count("rock_keys_swapped_out", len(slog.key_of))
+            res.count("rock_anchors_shared_by_several_keys", sum(1 for v_ in seen.values() if len(v_) > 1))
         for k, n in slog.counts.items():
             res.count(f"storelog:{name}:{k}", n)
         res.note(f"instance {name}: {cds}")
